@@ -91,6 +91,13 @@ def scenarios(r, n, ctx):
                     extra.append({'overwrite': True, 'overwrite_part': False, 'rm_part_on_exc': True,
                                   'text_mode': text, 'file_perms': None, 'umask': 0o022, 'dest': dest,
                                   'part': 'absent', 'writes': body, 'flush': [], 'body_close': how})
+    # destination names up to the file system's limit (255 bytes): the part file's name must still differ from it
+    for nlen in (240, 250, 251, 254, 255):
+        for dest in ('absent', 'present'):
+            for owp in (False, True):
+                extra.append({'overwrite': True, 'overwrite_part': owp, 'rm_part_on_exc': True, 'text_mode': False,
+                              'file_perms': None, 'umask': 0o022, 'dest': dest, 'part': 'absent', 'writes': [5, 9],
+                              'flush': [], 'dest_name': 'n' * (nlen - 4) + '.dat'})
     # one saver object entered again (a retry loop around `with saver:`): every crash point of both attempts
     for how in ('after-failure', 'after-success'):
         for dest in ('absent', 'present'):
@@ -187,15 +194,39 @@ def check_scenario_B(fu, scn, stats, viol):
             for msg in F.dest_touch_violations(log, res['dest']):
                 viol('order:' + sigkey(msg), msg, {'layer': 'B', 'scn': scn, 'crash_before': None})
             return
-        if res['exc'] is not None:
+        if res['exc'] is not None and scn.get('dest_name') and 'ENAMETOOLONG' in repr(res['exc']) + str(getattr(res.get('exc_obj'), 'errno', '')) \
+                or (res['exc'] is not None and scn.get('dest_name') and 'name too long' in str(res['exc']).lower()):
+            # a destination name so long that no part-file name fits next to it: being refused (before the body ran) is
+            # fine, as long as the destination was left alone - at every crash point of that attempt too (below)
+            stats.count('saves_refused_for_a_name_too_long')
+            if classify_dest(res['after'], res['before'], want) or (res['after']['dest'] is not None and res['before']['dest'] is None):
+                viol('long-name:destination-touched', 'the refused save left the destination as %r'
+                     % (res['after']['dest'] and res['after']['dest']['bytes'][:30],), {'layer': 'B', 'scn': scn, 'crash_before': None})
+            for k in range(len(log) + 1):
+                dk = os.path.join(base, 'ln%d' % k)
+                os.mkdir(dk)
+                status, after, before = F.run_crash_child(fu, scn, dk, k if k < len(log) else None)
+                stats.evaluations += 1
+                stats.monitor_evals += 1
+                bad = classify_dest(after, before, want) or ('dest-created' if after['dest'] is not None and before['dest'] is None
+                                                                 and after['dest']['bytes'] != want else None)
+                if bad:
+                    viol('long-name:crash:' + bad, 'destination name of %d bytes, killed before event %d of %r: destination holds %r...'
+                         % (len(scn['dest_name']), k, log, after['dest'] and after['dest']['bytes'][:30]),
+                         {'layer': 'B', 'scn': scn, 'crash_before': k})
+                shutil.rmtree(dk, ignore_errors=True)
+            return
+        elif res['exc'] is not None:
             viol('normal-exit:raised', 'fault-free save raised %r' % res['exc'],
                  {'layer': 'B', 'scn': scn, 'crash_before': None})
             return
         a = res['after']
-        if a['dest'] is None or a['dest']['bytes'] != want:
+        if res['exc'] is not None:
+            pass
+        elif a['dest'] is None or a['dest']['bytes'] != want:
             viol('normal-exit:wrong-content', 'after a normal with-block the destination holds %r...'
                  % (a['dest'] and a['dest']['bytes'][:40]), {'layer': 'B', 'scn': scn, 'crash_before': None})
-        if a['part'] is not None or len(a['listing']) != 1:
+        if res['exc'] is None and (a['part'] is not None or len(a['listing']) != 1):
             viol('normal-exit:part-file-left', 'listing after normal exit: %r' % a['listing'],
                  {'layer': 'B', 'scn': scn, 'crash_before': None})
         olog = log
